@@ -68,4 +68,29 @@ impl MemDesc {
             None => format!("{};{}", es.join(","), d),
         }
     }
+    pub fn from_line(l: &str) -> Option<MemDesc> {
+        let parts: Vec<&str> = l.split(';').collect();
+        if parts.len() < 2 {
+            return None;
+        }
+        let h = |x: &str| u64::from_str_radix(x, 16).ok();
+        let mut entries = Vec::new();
+        for e in parts[0].split(',').filter(|e| !e.is_empty()) {
+            let (a, v) = e.split_once(':')?;
+            entries.push((h(a)?, if v == "x" { None } else { Some(h(v)?) }));
+        }
+        let d = parts[1];
+        let default = match d.chars().next()? {
+            'F' => Dflt::Fail,
+            'I' => Dflt::Ident,
+            'C' => Dflt::Const(h(&d[1..])?),
+            'P' => Dflt::Plus(h(&d[1..])?),
+            _ => return None,
+        };
+        let cut = match parts.get(2) {
+            Some(c) => Some(h(c)?),
+            None => None,
+        };
+        Some(MemDesc { entries, default, cut })
+    }
 }
